@@ -103,6 +103,14 @@ def consistency(ctx: Ctx):
         "parameters reversed": reorder(g1, "ParameterSet", lambda e: -list(d.attrs["parameters"]).index(e.attrs["attrib"].get("name"))),
         "parameter types reversed": reorder(g1, "ParameterTypeSet", lambda e: -list(d.attrs["parameter_types"]).index(e.attrs["attrib"].get("name"))),
     }
+    # unconditional inheritance: a BaseContainer without RestrictionCriteria still makes the child an inheritor
+    unc = clone_tree(g1)
+    for e in find_all(unc, "SequenceContainer"):
+        if e.attrs["attrib"].get("name") == "SCI_HI":
+            for b in find_all(e, "BaseContainer"):
+                b.attrs["__children__"][:] = []
+    attach_nsmap(unc)
+    variants["child whose BaseContainer has no RestrictionCriteria"] = unc
     for name, doc in variants.items():
         site = f"{LOAD}::graph::{name}"
         try:
@@ -317,7 +325,7 @@ SPEC = PropSpec(
     pid="C17",
     title="A loaded definition is a consistent object graph; broken documents fail at load",
     check=check,
-    floors={"R17.g": 6, "R17.c": 20, "R17.1": 4, "R17.3": 3},
+    floors={"R17.g": 7, "R17.c": 20, "R17.1": 4, "R17.3": 3},
     explanation=("The loader is interpreted on the XML model. R17.g: the checker's document (all classes, nested and "
                  "inherited containers) is loaded in five element orders (users before/after what they reference) and the "
                  "resulting object graph is checked by identity: registries keyed by the object's own name, entry lists and "
